@@ -74,6 +74,33 @@ def run(ck, models, tier, ws):
         ref = [v for v in vs if v.status == "diverged" and not any(is_effect(e) for e in v.trace)]
         ck.ob("R9.1", "%s/mismatch-diverges-before-anything-is-modified" % rn, tm.target, bool(ref), "%d refusing path(s) without effects" % len(ref))
     ck.floor("R9.1", "checked-roots-with-a-replacement", n_checked, 3)
+    # ---------------- R9.2b the FuncPtr constructor stores what it is given
+    for adtp, a in tm.facts.adts.items():
+        if a["vis"] != "Public" or len(a["variants"]) != 1:
+            continue
+        fl = a["variants"][0]["fields"]
+        if not any(f_["ty"].get("k") == "ref" and f_["ty"]["inner"].get("k") == "str" for f_ in fl) or not any("FuncPtrInternal" in f_["ty"].get("s", "") for f_ in fl):
+            continue
+        for b in tm.facts.fn_bodies():
+            fnf = tm.facts.fns.get(b["path"]) or {}
+            if fnf.get("output", {}).get("path") != adtp or not fnf.get("reachable"):
+                continue
+            vs_ = tm.try_variants(b["path"]) or []
+            body_ = tm.facts.body(b["path"])
+            args_ = tm.root_args(tm.machines[(b["path"], None)], body_) if (b["path"], None) in tm.machines else []
+            for v in vs_:
+                if v.status != "returned" or not isinstance(v.ret, Adt):
+                    continue
+                sigs_ = [x for x in v.ret.fields if isinstance(x, Opaque) and x.ty and x.ty.get("k") == "ref"]
+                ptrs_ = find_ptr_leaves(v.ret)
+                in_sig = [x for x in args_ if isinstance(x, Opaque) and x.ty and x.ty.get("k") == "ref" and x.ty["inner"].get("k") == "str"]
+                in_ptr = [x for x in args_ if isinstance(x, Int)]
+                ok = len(sigs_) == 1 and len(in_sig) == 1 and sigs_[0].e == in_sig[0].e and len(ptrs_) == 1 and len(in_ptr) == 1 and \
+                    isinstance(ptrs_[0], Int) and same_expr(ptrs_[0].e, in_ptr[0].e)
+                ck.ob("R9.2", "%s/constructor-stores-its-arguments" % short(b["path"]), tm.target, ok,
+                      "%s returns {pointer: %s, signature: %s} for arguments (%s, %s)" % (
+                          short(b["path"]), fmt(ptrs_[0].e, 3) if ptrs_ and isinstance(ptrs_[0], Int) else ptrs_, fmt(sigs_[0].e, 3) if sigs_ else None,
+                          fmt(in_ptr[0].e, 3) if in_ptr else None, fmt(in_sig[0].e, 3) if in_sig else None))
     # ---------------- R9.3 when_called* store the right expectation
     for p in sorted(tm.public_fns()):
         f = tm.facts.fns[p]
@@ -141,6 +168,15 @@ def run(ck, models, tier, ws):
                 why += "; declared: unsafe=%s abi=%s -> %s" % (want_unsafe, want_abi, want_out)
         ptr = rec.args[0]
         okp = isinstance(ptr, FnVal)
+        # the recorded pointer is the function the user named (the harness knows what it passed)
+        if okp and macro == "func":
+            okp = ptr.path.startswith("m::tgt_")
+        elif okp and macro == "closure":
+            okp = "closure" in ptr.path
+        elif okp and macro == "fake":
+            okp = ptr.path == mod + "::instantiate::fake"
+        elif okp and macro == "async_return":
+            okp = ptr.path == mod + "::instantiate::generated_poll_fn"
         ck.ob("R9.2", "%s/records-declared-fn-pointer-type" % key, tm.target, ok and okp, why + "; pointer recorded: %r" % (ptr,))
     ck.floor("R9.2", "macro-arms-recording-a-signature", n, 70)
     # ---------------- R9.5 async agreement and compile-fail witness
